@@ -95,6 +95,18 @@ def run_scenario(levels: List[str], queries_fn):
 
             greenlet.greenlet(mid_body).switch()
             box["inner"].switch()                           # re-entered from here, below a dead parent
+        elif kind == "gb":
+            # the split is made by greenback: the levels below run as synchronous code of a Trio task that has a greenback portal
+            # (greenback's child greenlet, under its shim and trampoline frames)
+            import greenback
+            import trio
+
+            async def gb_main():
+                my_frames.append(sys._getframe(0))
+                await greenback.ensure_portal()
+                level(k + 1)
+
+            trio.run(gb_main)
         else:
             raise ValueError(kind)
 
@@ -129,6 +141,10 @@ class C04(PropCheck):
                 continue
             seen.add(tuple(levels))
             out.append({"k": "stack", "levels": levels, "qseed": rng.randrange(1 << 30), "hostile": len(out) % 5 == 0})
+        # splits made by greenback (a Trio task with a portal), alone and with user-created greenlets nested inside
+        for levels in (["gb"], ["f", "gb", "f"], ["gb", "gl", "f"], ["gb", "gl", "g"], ["gb", "f", "gl", "gl", "c"], ["gb", "gld", "f"],
+                       ["gb", "glc", "f"], ["gl", "gb", "gl"]):
+            out.append({"k": "stack", "levels": levels, "qseed": rng.randrange(1 << 30)})
         for d in (0, 1, 3) if tier == "quick" else (0, 1, 2, 3, 5, 8):
             out.append({"k": "otherthread", "depth": d, "levels": ["otherthread", str(d)]})
         return out
@@ -243,6 +259,15 @@ class C04(PropCheck):
             res = []
             segj = [[idx[id(f)] for f in seg] for seg in segs]
             case["_segs"] = segj
+            gbf = {i for i, f in enumerate(full) if str(f.f_globals.get("__name__", "")).startswith("greenback")}
+
+            def ends_in_greenback(o, i, l):
+                # listed known finding F51: a slice whose last frame is one of greenback's own (shim, trampoline, await_) runs on
+                # past its end; such slices are replayed by the finding's witness and not asked here
+                if o is not None and i is not None and o > i:
+                    return o in gbf          # (outside the quantifier; the code answers [outer] + "not running")
+                sp = spec(o, i, l)
+                return bool(sp) and sp[-1] in gbf
 
             def show(st):
                 fr = []
@@ -266,6 +291,8 @@ class C04(PropCheck):
                 return s
 
             for o, i, l in combos:
+                if ends_in_greenback(o, i, l):
+                    continue
                 st = stackscope.extract(StackSlice(outer=None if o is None else full[o], inner=None if i is None else full[i], limit=l),
                                         with_contexts=False)
                 s, fr = show(st)
@@ -283,6 +310,8 @@ class C04(PropCheck):
                 if fr != spec(o, None, None):
                     probs.append(f"extract_since({o}) gave {fr}, expected {spec(o, None, None)}")
             for i in range(first_mine, len(full)):
+                if i in gbf:
+                    continue
                 for l in (None, 1, 2, len(full) + 1):
                     st = stackscope.extract_until(full[i], limit=l, with_contexts=False)
                     s, fr = show(st)
